@@ -145,6 +145,23 @@ CLAIMED = {
         technique="TLA+ specs Mailbox + LockFile, TLC exhaustive model checks; TLC trace validation of real "
                   "asyncio runs; TLC-enumerated schedules replayed on real code in separate processes",
         design_ref="5/C15"),
+
+    "C16": dict(
+        category="model_checking",
+        text="CoE.tla (an SDO server per ETG.1000.6 5.6.2: expedited / normal / segmented download and upload, "
+             "toggle from 0, size indication, complete access, last-segment flag and unused-bytes field, abort, "
+             "interleaved unrelated mail) composed with Sdo.tla (client obligations: every message fits the "
+             "mailbox; value after a download = the client's bytes; result of an upload = the server's bytes) "
+             "is model-checked exhaustively on tiny mailboxes. Real sdo_read / sdo_write run on a real Terminal "
+             "and EtherCat over a simulated bus for mailbox sizes 32..256, value lengths 0..3 mailboxes, "
+             "subindex and complete access, with TLC-generated scripts of delays, unrelated mail, short "
+             "fragments and aborts; every mailbox message both ways, the call's outcome and the server's final "
+             "value are validated by TLC. The simulated server's own messages are validated by the same spec.",
+        note="Complete access and subindex access are modelled as independent objects; the outcome after a server "
+             "abort is unconstrained. The server model follows the standard as read, not a physical device.",
+        technique="TLA+ specs Sdo || CoE, TLC exhaustive design check; TLC-enumerated reply scripts; real "
+                  "transfers on a simulated bus; TLC batched trace validation",
+        design_ref="5/C16"),
 }
 NOT_YET = "not yet built in this round (planned in DESIGN.md section 5)"
 NOT_APPLICABLE = {}
